@@ -38,10 +38,12 @@ class Ref:
         self.ann = dict(ann)
         self.saved = saved      # (unused tuple, ann tuple) or None
         self.saved_impl = None
+        self.last_req = {}      # key -> annotation REQUESTED at its latest hand-out (what the caller passes when undoing it)
 
     def copy(self):
         r = Ref(self.unused, self.ann, self.saved)
         r.saved_impl = self.saved_impl
+        r.last_req = dict(self.last_req)
         return r
 
     def key(self):
@@ -73,11 +75,14 @@ def apply_op(w, ref, op, last, rec, check_crash, bad, trace):
         else:
             if k not in w.keypairs:
                 bad.append(('handout-unknown-key', "hand-out without unused keys returned a key not in the wallet", trace))
+        ref.last_req[k] = op[1]
         return w, ref, k
     if kind == 'restore':
         if last is None or last not in ref.ann:
             return None
-        w.restore_annotated_public_key(last, ref.ann[last])
+        # the caller undoes a hand-out with the annotation it asked for (as the miner does on shutdown) - for a re-used key
+        # that is not the annotation the key carries
+        w.restore_annotated_public_key(last, ref.last_req.get(last, ref.ann[last]))
         del ref.ann[last]
         ref.unused.append(last)
         return w, ref, None
